@@ -12,7 +12,27 @@ def _is_noreturn_call(s):
         d = callee_decl(s)
         if d and d.get('name') in ('abort', 'exit', '_exit', 'quick_exit', '__builtin_unreachable', '__assert_fail', 'terminate'):
             return True
+        # a repository function whose body never completes normally (it only throws / aborts)
+        if d is not None and d.get('id') not in _NORETURN_BUSY:
+            cands = [d] + [e for e in DECLS.get(d.get('id'), ()) if e is not d]
+            mn = d.get('mangledName')
+            for e in cands:
+                b = body_of(e)
+                if b is None and mn:
+                    continue
+                if b is not None:
+                    _NORETURN_BUSY.add(d.get('id'))
+                    try:
+                        nr = not falls_through(b) and not any(x.get('kind') == 'ReturnStmt' for x in walk(b))
+                    finally:
+                        _NORETURN_BUSY.discard(d.get('id'))
+                    return nr
+            if any(a.get('kind') in ('CXX11NoReturnAttr', 'NoReturnAttr') for e in cands for a in kids(e)):
+                return True
     return False
+
+
+_NORETURN_BUSY = set()
 
 
 def falls_through(s):
@@ -42,6 +62,8 @@ def falls_through(s):
         return falls_through(kids(s)[-1]) if kids(s) else True
     if k in ('CallExpr', 'CXXMemberCallExpr'):
         return not _is_noreturn_call(s)
+    if k == 'AttributedStmt':
+        return all(falls_through(c) for c in kids(s) if c.get('kind') and not c['kind'].endswith('Attr'))
     if k in ('ForStmt', 'WhileStmt'):
         # an infinite loop without break does not complete normally
         cond = for_parts(s)[2] if k == 'ForStmt' else while_parts(s)[0]
